@@ -13,6 +13,7 @@ Only property theorems and non-vacuity examples live here; helpers are in Proofs
 (and the counting bridges of Proofs/Prob7.lean, Prob8.lean).
 -/
 import Prs.Proofs.FormulasPc
+import Prs.Proofs.FormulasPc2
 import Prs.Proofs.Stats
 
 open Finset BigOperators
@@ -212,6 +213,27 @@ theorem C02_source_pc_n (n : List ℕ) : Generated.pc_n (castCounts n) = pcN n :
 
 example : Generated.pc_n (castCounts [2, 1, 3]) = 4 / 15 := by
   rw [C02_source_pc_n]; decide +kernel
+
+/-- `pc` itself for ONE flat collection (no second sample, not a table), as re-translated from pyrepseq/stats.py on this run
+(Generated/FormulasPc `pc_one_sample`: the conversions are the identity, `N = array.shape[0]`, `np.unique(return_counts=True)` is
+`counts`, then the pair-count quotient written out in the body — `pc` does not call `pc_n`) is the model `pc1` -/
+theorem C02_source_pc_one_sample {β : Type} [DecidableEq β] (xs : List β) : Generated.pc_one_sample xs = pc1 xs :=
+  gen_pc_one_sample_eq xs
+
+/-- hence what the source computes is the fraction of ordered pairs of distinct positions that hold equal elements
+(`C02_pc_pairs` transported to the translated definition), and it does not depend on the order of the sample -/
+theorem C02_source_pc_pairs {β : Type} [DecidableEq β] (xs : List β) (h : 2 ≤ xs.length) :
+    Generated.pc_one_sample xs * ((xs.length : ℚ) * ((xs.length : ℚ) - 1)) =
+      (((Finset.univ : Finset (Fin xs.length × Fin xs.length)).filter
+        (fun b => b.1 ≠ b.2 ∧ xs[b.1] = xs[b.2])).card : ℚ) := by
+  rw [C02_source_pc_one_sample]; exact C02_pc_pairs xs h
+
+theorem C02_source_pc_perm {β : Type} [DecidableEq β] (xs ys : List β) (h : xs.Perm ys) :
+    Generated.pc_one_sample xs = Generated.pc_one_sample ys := by
+  rw [C02_source_pc_one_sample, C02_source_pc_one_sample]; exact C02_perm xs ys h
+
+example : Generated.pc_one_sample ["a", "b", "a", "c", "a", "b"] = 4 / 15 := by
+  rw [C02_source_pc_one_sample]; decide +kernel
 
 end Prs
 
